@@ -273,8 +273,10 @@ namespace nmtools::index
 
             for (nm_size_t i=0; i<(nm_size_t)n_planes; i++) {
                 if constexpr (meta::is_index_array_v<dilation_t>) {
-                    // assume same length as n_planes
-                    at(result,i) = at(dilation,i) - 1;
+                    // assume same length as n_planes;
+                    // the window axes (conv_window_axis) run from the last axis backwards, the dilation is given per spatial axis
+                    // from the first one, so the i-th window axis takes the dilation of the i-th spatial axis from the end
+                    at(result,i) = at(dilation,(nm_size_t)n_planes-1-i) - 1;
                 } else {
                     at(result,i) = dilation - 1;
                 }
